@@ -15,7 +15,10 @@ PID = 'C12'
 WORKER = os.path.join(common.VERIF, 'tools', 'harness', 'c12_worker.py')
 APIS = ['compile', 'compile_nolink', 'get_symbols', 'check_syntax', 'cnl_to_json']
 REJECTED = ['A node goes from 1 to 3.\n$', 'A node is identified', 'A node goes from 1 to 3.\nThere is a colour with id 2.\n',
-            'A node is identified by an id, and has a weight.\nIt is prohibited that the total of phantom of a node is greater than 2.\n']
+            'A node is identified by an id, and has a weight.\nIt is prohibited that the total of phantom of a node is greater than 2.\n',
+            # uses a concept that only an EARLIER text of the history declares: must stay rejected
+            'It is prohibited that there is a node with id 2, with weight W, where W is greater than 10.\n']
+DECLARES_NODE = 'A node is identified by an id, and has a weight.\nA node goes from 1 to 3.\n'
 
 
 def run_worker(job, seed):
@@ -36,9 +39,12 @@ def run(tier, seed):
     tie_ok, tout = translate.run(['effects'])
     proof = common.build_property(PID)
     accepted = [gen_wide.text_of(gen_wide.generate(rnd)) for _ in range(12 if tier == 'quick' else 60)]
-    accepted += [t for _, t in corpus.load() if len(t) < 2500][:(8 if tier == 'quick' else 40)]
+    loaded = corpus.load()
+    accepted += [t for _, t in loaded if len(t) < 2500][:(8 if tier == 'quick' else 40)]
+    regress = [t for n, t in loaded if n.startswith('regressions/')]
+    accepted += [t for t in regress if t not in accepted] + [DECLARES_NODE]
     nh = 40 if tier == 'quick' else 400
-    seeds = [0, 1] if tier == 'quick' else [0, 1, 2, 31337, 424242]
+    seeds = [0, 1, 2, 3] if tier == 'quick' else [0, 1, 2, 3, 4, 5, 31337, 424242]
     jobs = []
     for i in range(nh):
         length = rnd.randint(0, 6)
@@ -49,14 +55,27 @@ def run(tier, seed):
         if rnd.random() < 0.25 and calls:
             last = list(calls[rnd.randrange(len(calls))])      # repeat an earlier call (idempotence)
         wf = rnd.random() < 0.3
-        jobs.append(dict(with_functions=wf, calls=calls + [last], last=last))
+        jobs.append(dict(with_functions=wf, calls=calls + [last], last=last, construct_first=rnd.random() < 0.4))
+    # directed histories: every regression text and the state-dependent rejected text, observed after each other regression text
+    for t in regress + [REJECTED[-1]]:
+        for api in (['compile', 'cnl_to_json'] if tier == 'quick' else APIS):
+            for h in regress + [DECLARES_NODE]:
+                if h != t:
+                    last = [api, t]
+                    jobs.append(dict(with_functions=False, calls=[['compile', h], last], last=last, construct_first=rnd.random() < 0.5))
     tasks = []
     for j in jobs:
-        tasks.append((dict(with_functions=j['with_functions'], calls=j['calls']), seeds[0]))       # with history
+        tasks.append((dict(with_functions=j['with_functions'], calls=j['calls'], construct_first=j['construct_first']), seeds[0]))       # with history
         for s in seeds:
             tasks.append((dict(with_functions=j['with_functions'], calls=[j['last']]), s))           # fresh process, each hash seed
+    # identical tasks (the same single call in a fresh process under the same seed) are run once
+    uniq = {}
+    for t in tasks:
+        uniq.setdefault(json.dumps(t, sort_keys=True), t)
+    keys = list(uniq)
     with ThreadPoolExecutor(max_workers=16) as ex:
-        results = list(ex.map(lambda t: run_worker(*t), tasks))
+        done = dict(zip(keys, ex.map(lambda k_: run_worker(*uniq[k_]), keys)))
+    results = [done[json.dumps(t, sort_keys=True)] for t in tasks]
     k = 0
     dist = {}
     for j in jobs:
@@ -65,7 +84,8 @@ def run(tier, seed):
         k += 1 + len(seeds)
         rep.case((json.dumps(j['calls']), j['with_functions']))
         dist[j['last'][0]] = dist.get(j['last'][0], 0) + 1
-        info = dict(history=[[a, t[:200]] for a, t in j['calls'][:-1]], observed_call=[j['last'][0], j['last'][1]], with_functions=j['with_functions'])
+        info = dict(history=[[a, t[:200]] for a, t in j['calls'][:-1]], observed_call=[j['last'][0], j['last'][1]], with_functions=j['with_functions'],
+                    all_objects_constructed_before_the_first_call=j['construct_first'])
         if any(r and r[0].startswith('worker') for r in [with_hist] + fresh):
             rep.notes.append('worker problem: %r' % ([with_hist] + fresh)[:2])
             continue
